@@ -19,6 +19,14 @@ class _Rec:
 REC = _Rec()
 
 
+def _ondisk(items):
+    from twosigma.memento.storage_filesystem import OnDiskPartition
+    p = OnDiskPartition()
+    for k, v in items.items():
+        p[k] = v
+    return p
+
+
 def make(i):
     tz = datetime.timezone
     table = [
@@ -44,6 +52,8 @@ def make(i):
         ("frame", lambda: pd.DataFrame({"a": [1, 2], "b": ["x", None]})), ("frame-empty", lambda: pd.DataFrame()),
         ("partition", lambda: InMemoryPartition({"k1": 1, "k2": [2, "x"], "k3": None})),
         ("partition-empty", lambda: InMemoryPartition({})),
+        ("partition-ondisk", lambda: _ondisk({"k1": 1, "k2": [2, "x"], "k3": None, "k4": np.array([1.5, 2.5])})),
+        ("partition-ondisk-nulls", lambda: _ondisk({"a": None, "b": None})),
         # results of more than 100 rows (the memory cache estimates the size of large pandas objects from a sample)
         ("index-strings-150", lambda: pd.Index(["t%03d" % i * (1 + i % 3) for i in range(150)])),
         ("index-dates-150", lambda: pd.date_range("2020-01-01", periods=150)),
@@ -54,7 +64,7 @@ def make(i):
     return table[i][0], table[i][1]()
 
 
-NVALUES = 49
+NVALUES = 51
 
 
 @memento_function(cluster="cv", version="1")
